@@ -150,8 +150,8 @@ func versioned(k int, native bool) (*core.Spec, error) {
 			{HasPattern: true, Pattern: map[string]interface{}{"never": "?x"}, Target: "nowhere"},
 			{Guard: push(), Target: n1},
 		}}},
-		n1: {Action: push(), Branching: &ref.ABranching{Type: "bindings", Branches: []*ref.ABranch{{Guard: push(), Target: n2}}}},
-		n2: {Action: push(), Branching: &ref.ABranching{Type: "bindings", Branches: []*ref.ABranch{{Target: "done"}}}},
+		n1:     {Action: push(), Branching: &ref.ABranching{Type: "bindings", Branches: []*ref.ABranch{{Guard: push(), Target: n2}}}},
+		n2:     {Action: push(), Branching: &ref.ABranching{Type: "bindings", Branches: []*ref.ABranch{{Target: "done"}}}},
 		"done": {Branching: &ref.ABranching{Type: "message"}},
 	}}
 	return a.Compiled(native, ref.NativeNilErr)
@@ -281,7 +281,9 @@ func derived(cfg fw.Config, rec *fw.Rec, round int) {
 		// each version stamps through a helper it installs on a built-in object when it
 		// does not find one: an execution that inherits anything from an execution of
 		// another version stamps that version
-		return fmt.Sprintf("var bs = _.bindings; if (Math.vtag === undefined) { Math.vtag = %d; } bs.stamps = (bs.stamps || []).concat([Math.vtag]); return bs;", k)
+		// (the same with the step properties, which are absent here: whatever an execution
+		// finds in _.props was put there by another one)
+		return fmt.Sprintf("var bs = _.bindings; if (Math.vtag === undefined) { Math.vtag = %d; } if (_.props.ptag === undefined) { _.props.ptag = %d; } bs.stamps = (bs.stamps || []).concat([Math.vtag === _.props.ptag ? Math.vtag : -_.props.ptag]); return bs;", k, k)
 	}
 	build := func(k int) (*core.Spec, error) {
 		src := func() *core.ActionSource { return &core.ActionSource{Interpreter: "ecmascript", Source: stampSrc(k)} }
